@@ -39,7 +39,7 @@ def run(ctx):
         if short:
             r.eq('too-short', short[0].value_str(), 'None', site)
         if full:
-            want = 'Some((std::result::Result::unwrap(amq_protocol::types::parsing::parse_long_uint(buf[frame_buffer::AmqpFrameKind::AMQP_FRAME_SIZE_POS])).1 + 8))'
+            want = 'Some((8 + std::result::Result::unwrap(amq_protocol::types::parsing::parse_long_uint(buf[frame_buffer::AmqpFrameKind::AMQP_FRAME_SIZE_POS])).1))'  # sums are written in one operand order
             r.eq('size-plus-overhead', full[0].value_str(), want, site, why='frame = 7-byte header + payload + frame-end octet')
         a, b = panics.Checkers(ctx).size_range()
         r.eq('size-position', (a, b), (3, 7), site, why='AMQP 0-9-1 4.2.3: type(1) channel(2) size(4)')
